@@ -250,6 +250,29 @@ func main() {
 		jobs = append(jobs, job{Name: "basm-directed-template-fragment-5callers", Tool: "basm", Class: "directed", Files: map[string]string{"in.basm": sb.String()},
 			Args: []string{"-o", "out.json", "-dump-requirements", "req.json", "in.basm"}, Outputs: []string{"out.json", "req.json"}})
 	}
+	// several shared objects of differing kind and depth attached to several CPs in crossing order
+	{
+		var sb strings.Builder
+		sb.WriteString("%meta bmdef global registersize:8\n")
+		code := map[string]string{
+			"sa": "\ti2r\tr0, i0\n\tr2q\tr0, q0\n\tr2t\tr0, st0\n\tr2q\tr0, q1\n\tj\t_start\n",
+			"sb": "\tq2r\tr0, q0\n\tinc\tr0\n\tr2q\tr0, q1\n\tj\t_start\n",
+			"sc": "\tq2r\tr0, q0\n\tt2r\tr1, st0\n\tadd\tr0, r1\n\tr2t\tr0, st1\n\tj\t_start\n",
+			"sd": "\tq2r\tr0, q0\n\tt2r\tr1, st0\n\tadd\tr0, r1\n\tr2o\tr0, o0\n\tj\t_start\n",
+		}
+		for _, n := range []string{"sa", "sb", "sc", "sd"} {
+			fmt.Fprintf(&sb, "%%section %s .romtext iomode:sync\n\tentry _start\n_start:\n%s%%endsection\n", n, code[n])
+		}
+		sb.WriteString("%meta cpdef ca romcode: sa, ramsize:8\n%meta cpdef cb romcode: sb, ramsize:8\n%meta cpdef cc romcode: sc, ramsize:8\n%meta cpdef cd romcode: sd, ramsize:8\n")
+		sb.WriteString("%meta sodef qa constraint:queue:4\n%meta sodef qb constraint:queue:16\n%meta sodef qc constraint:queue:8\n%meta sodef ska constraint:stack:8\n%meta sodef skb constraint:stack:4\n")
+		sb.WriteString("%meta soatt qa cp: ca, index:0\n%meta soatt ska cp: ca, index:1\n%meta soatt qc cp: ca, index:2\n")
+		sb.WriteString("%meta soatt qa cp: cb, index:0\n%meta soatt qb cp: cb, index:1\n")
+		sb.WriteString("%meta soatt qb cp: cc, index:0\n%meta soatt ska cp: cc, index:1\n%meta soatt skb cp: cc, index:2\n")
+		sb.WriteString("%meta soatt qc cp: cd, index:0\n%meta soatt skb cp: cd, index:1\n")
+		sb.WriteString("%meta ioatt in0 cp: bm, index:0, type:input\n%meta ioatt in0 cp: ca, index:0, type:input\n%meta ioatt out0 cp: cd, index:0, type:output\n%meta ioatt out0 cp: bm, index:0, type:output\n")
+		jobs = append(jobs, job{Name: "basm-directed-five-shared-objects", Tool: "basm", Class: "directed", Files: map[string]string{"in.basm": sb.String()},
+			Args: []string{"-o", "out.json", "-dump-requirements", "req.json", "in.basm"}, Outputs: []string{"out.json", "req.json"}})
+	}
 	// ---- neuralbond ----
 	neurons, _ := filepath.Glob("/repo/library/neurons/*.basm")
 	if r := os.Getenv("VERIF_REPO"); r != "" && r != "/repo" {
